@@ -17,3 +17,7 @@ package util
 //@   rangeloop 0: modifies m.dom
 //@   rangeloop 0: invariant [progress] forall k any :: m.dom[k] <==> ($dom0[k] && !($ridx[k] < $ri && typeis(k, "string") && applyBool(match, unbox(k, "string"))))
 //@   rangeloop 0: invariant [start] $dom0 == old(m.dom)
+
+//@ func NewError(message string, statusCode int) (e error)
+//@   nopanic
+//@   ensures [nonnil] e != nil
